@@ -42,4 +42,35 @@ def sign1Neg (l : List Nat) (ferm : List Bool) (odd : Bool) : Bool :=
 def sign2Neg (l : List Nat) (ferm : List Bool) (odd : Bool) (k : Nat) : Bool :=
   (fermionicExcite (l.take k) (ferm.take k) + (if odd then 1 else 0)) % 2 = 1
 
+/-! ### merging two exponents of equal rate (`CFExponent._combine`) -/
+
+inductive Kind | R | I | RI
+deriving DecidableEq, Repr
+
+/-- a bosonic exponent without its rate: `ck`, and `ck2` for kind RI -/
+structure CExp (K : Type) where
+  kind : Kind
+  ck : K
+  ck2 : K
+
+section combine
+variable {K : Type} [Add K] [Mul K] [OfNat K 0]
+
+/-- contribution of the exponent to the real-part and to the imaginary-part expansion -/
+def CExp.parts (e : CExp K) : K × K :=
+  match e.kind with
+  | .R => (e.ck, 0)
+  | .I => (0, e.ck)
+  | .RI => (e.ck, e.ck2)
+
+/-- `_combine(self, other)` -/
+def combine (a b : CExp K) : CExp K :=
+  if a.kind = b.kind ∧ a.kind ≠ .RI then ⟨a.kind, a.ck + b.ck, 0⟩
+  else
+    let pa := a.parts
+    let pb := b.parts
+    ⟨.RI, (0 + pa.1) + pb.1, (0 + pa.2) + pb.2⟩
+
+end combine
+
 end Qv.C19
